@@ -196,6 +196,7 @@ class Contract:
         self.ghost = []
         self.asserts = []
         self.assumes = []
+        self.unroll = None
         self.extern_params = []
         self.external_below = None
 
@@ -399,6 +400,12 @@ class ContractDB:
                 last = c
             elif word == 'external-below':
                 cur.external_below = Clause('external-below', 'external-below', [], rest, path, ln)
+                last = None
+            elif word == 'unroll':
+                # a BOUNDED check: every loop reached from this function (also in callees, whose bodies are then followed
+                # instead of their contracts) is unrolled up to N iterations; a path that needs more is an error
+                cur.unroll = int(rest.split()[0])
+                cur.flags.add('bounded')
                 last = None
             elif word in ('inline', 'trusted', 'pure', 'nosafety', 'safety', 'functional'):
                 cur.flags.add(word)
